@@ -40,19 +40,19 @@ type Ledger struct {
 	ClaimsPaid *big.Int
 	Forfeited  *big.Int
 	Issued     *big.Int // genesis allocation + scheduled subsidies so far
-	SF         uint64   // siafunds in unspent outputs
+	SF         *big.Int // siafunds in unspent outputs (big: a 64-bit sum could wrap exactly like the code under test)
 	snaps      []ledgerSnap
-	GenesisSF  uint64
+	GenesisSF  *big.Int
 	legacyMissed map[types.FileContractID]bool
 }
 
 type ledgerSnap struct {
 	Unspent, LockedV1, LockedV2, ClaimsPaid, Forfeited, Issued *big.Int
-	SF                                                          uint64
+	SF                                                          *big.Int
 }
 
 func NewLedger(prop string, r Reporter, n *consensus.Network) *Ledger {
-	return &Ledger{R: r, Prop: prop, Net: n, Unspent: new(big.Int), LockedV1: new(big.Int), LockedV2: new(big.Int), ClaimsPaid: new(big.Int), Forfeited: new(big.Int), Issued: new(big.Int)}
+	return &Ledger{R: r, Prop: prop, Net: n, Unspent: new(big.Int), LockedV1: new(big.Int), LockedV2: new(big.Int), ClaimsPaid: new(big.Int), Forfeited: new(big.Int), Issued: new(big.Int), SF: new(big.Int), GenesisSF: new(big.Int)}
 }
 
 func cp(b *big.Int) *big.Int { return new(big.Int).Set(b) }
@@ -112,7 +112,7 @@ func (l *Ledger) OnApply(ev chaingen.ApplyEvent) {
 	h := ev.Next.Index.Height
 	isGenesis := ev.Prev.Index.Height == ^uint64(0)
 	wit := map[string]any{"height": h, "kinds": ev.Kinds}
-	l.snaps = append(l.snaps, ledgerSnap{cp(l.Unspent), cp(l.LockedV1), cp(l.LockedV2), cp(l.ClaimsPaid), cp(l.Forfeited), cp(l.Issued), l.SF})
+	l.snaps = append(l.snaps, ledgerSnap{cp(l.Unspent), cp(l.LockedV1), cp(l.LockedV2), cp(l.ClaimsPaid), cp(l.Forfeited), cp(l.Issued), cp(l.SF)})
 
 	created := map[types.SiacoinOutputID]types.SiacoinElement{}
 	for _, d := range ev.AU.SiacoinElementDiffs() {
@@ -130,9 +130,9 @@ func (l *Ledger) OnApply(ev chaingen.ApplyEvent) {
 	for _, d := range ev.AU.SiafundElementDiffs() {
 		switch {
 		case d.Created && !d.Spent:
-			l.SF += d.SiafundElement.SiafundOutput.Value
+			l.SF.Add(l.SF, new(big.Int).SetUint64(d.SiafundElement.SiafundOutput.Value))
 		case d.Spent && !d.Created:
-			l.SF -= d.SiafundElement.SiafundOutput.Value
+			l.SF.Sub(l.SF, new(big.Int).SetUint64(d.SiafundElement.SiafundOutput.Value))
 		}
 	}
 	for _, d := range ev.AU.FileContractElementDiffs() {
@@ -189,7 +189,7 @@ func (l *Ledger) OnApply(ev chaingen.ApplyEvent) {
 	if isGenesis {
 		// genesis is taken as the allocation, not validated
 		l.Issued.Set(l.Unspent)
-		l.GenesisSF = l.SF
+		l.GenesisSF = cp(l.SF)
 		l.identity(ev.Next, "after-genesis", wit)
 		return
 	}
@@ -317,8 +317,8 @@ func (l *Ledger) identity(s consensus.State, when string, wit any) {
 	if poolLeft.Sign() < 0 {
 		l.R.Violate(l.Prop+"/pool-overdrawn/"+when, fmt.Sprintf("claims paid exceed tax revenue by %v", new(big.Int).Neg(poolLeft)), wit)
 	}
-	if l.SF != l.GenesisSF {
-		l.R.Violate(l.Prop+"/siafund-count/"+when, fmt.Sprintf("siafunds in unspent outputs: %d, genesis allocated %d", l.SF, l.GenesisSF), wit)
+	if l.SF.Cmp(l.GenesisSF) != 0 {
+		l.R.Violate(l.Prop+"/siafund-count/"+when, fmt.Sprintf("siafunds in unspent outputs: %v, genesis allocated %v", l.SF, l.GenesisSF), wit)
 	}
 	l.R.Count("conservation_identities_checked", 1)
 }
@@ -342,12 +342,12 @@ func (l *Ledger) CompareStore(st *chaingen.Store, when string) {
 	if u.Cmp(l.Unspent) != 0 {
 		l.R.Violate(l.Prop+"/store-vs-ledger/siacoins/"+when, fmt.Sprintf("store holds %v in unspent outputs, ledger %v", u, l.Unspent), nil)
 	}
-	var sf uint64
+	sf := new(big.Int)
 	for _, e := range st.SFEs {
-		sf += e.SiafundOutput.Value
+		sf.Add(sf, new(big.Int).SetUint64(e.SiafundOutput.Value))
 	}
-	if sf != l.SF {
-		l.R.Violate(l.Prop+"/store-vs-ledger/siafunds/"+when, fmt.Sprintf("store holds %d SF, ledger %d", sf, l.SF), nil)
+	if sf.Cmp(l.SF) != 0 {
+		l.R.Violate(l.Prop+"/store-vs-ledger/siafunds/"+when, fmt.Sprintf("store holds %v SF, ledger %v", sf, l.SF), nil)
 	}
 	v1 := new(big.Int)
 	for _, e := range st.FCEs {
@@ -371,6 +371,7 @@ func (l *Ledger) CompareStore(st *chaingen.Store, when string) {
 func (l *Ledger) Clone() *Ledger {
 	c := *l
 	c.Unspent, c.LockedV1, c.LockedV2, c.ClaimsPaid, c.Forfeited, c.Issued = cp(l.Unspent), cp(l.LockedV1), cp(l.LockedV2), cp(l.ClaimsPaid), cp(l.Forfeited), cp(l.Issued)
+	c.SF, c.GenesisSF = cp(l.SF), cp(l.GenesisSF)
 	c.snaps = nil
 	c.legacyMissed = map[types.FileContractID]bool{}
 	for k, v := range l.legacyMissed {
